@@ -59,15 +59,38 @@ func runC20Child(_ []string, _ *bufio.Writer, args []string) {
 		cfg["logger.lg.type"], cfg["logger.lg.fileDir"], cfg["logger.lg.fileName"] = "RollingFile", dir, "a.log"
 		cfg["logger.lg.rotation"], cfg["logger.lg.level"], cfg["logger.lg.separate"] = "1s", "info", "true"
 		cfg["logger.lg.layout.type"] = map[bool]string{false: "TextLayout", true: "JSONLayout"}[lay]
+	case "file2", "rolling2": // two loggers (one per tag), each with its own appender, both appenders on the SAME file
+		typ := map[string]string{"file2": "File", "rolling2": "RollingFile"}[kind]
+		for _, a := range []string{"a", "b"} {
+			cfg["appender."+a+".type"], cfg["appender."+a+".fileDir"], cfg["appender."+a+".fileName"] = typ, dir, "a.log"
+			if kind == "rolling2" {
+				cfg["appender."+a+".rotation"], cfg["appender."+a+".maxAge"] = "1s", "24"
+			}
+			if lay {
+				cfg["appender."+a+".layout.type"] = "JSONLayout"
+			}
+		}
+		cfg["logger.lg2.type"], cfg["logger.lg2.tags"], cfg["logger.lg2.appenderRef.ref"] = "Logger", "_c20b_*", "b"
+	case "filelogger2": // two File LOGGER plugins on the same file
+		delete(cfg, "logger.lg.appenderRef.ref")
+		cfg["appender.a.type"] = "Discard"
+		for lg, tags := range map[string]string{"lg": "_c20_*", "lg2": "_c20b_*"} {
+			cfg["logger."+lg+".type"], cfg["logger."+lg+".fileDir"], cfg["logger."+lg+".fileName"], cfg["logger."+lg+".tags"] = "File", dir, "a.log", tags
+			cfg["logger."+lg+".layout.type"] = map[bool]string{false: "TextLayout", true: "JSONLayout"}[lay]
+		}
 	default:
 		cfg["appender.a.type"] = "Console"
+	}
+	tags := []*log.Tag{tag, tag}
+	if strings.HasSuffix(kind, "2") {
+		tags[1] = log.RegisterTag("_c20b_probe")
 	}
 	pad := 0
 	if len(args) > 8 {
 		pad, _ = strconv.Atoi(args[7])
 		cfg["bufferCap"] = args[8]
 	}
-	if lay && kind != "file-ll" && kind != "rollinglogger" && kind != "filelogger" && kind != "consolelogger" {
+	if lay && kind != "file-ll" && kind != "rollinglogger" && kind != "filelogger" && kind != "consolelogger" && kind != "filelogger2" {
 		cfg["appender.a.layout.type"] = "JSONLayout"
 	}
 	if err := log.Refresh(cfg); err != nil {
@@ -85,7 +108,7 @@ func runC20Child(_ []string, _ *bufio.Writer, args []string) {
 			defer wg.Done()
 			for n := 0; time.Now().Before(end); n++ {
 				id := fmt.Sprintf("%d.%d", g, n)
-				log.Infof(ctx, tag, "<id:%s>%s|%d", id, strings.Repeat("#", pad+(g+n)%7), pad+(g+n)%7) // self-validating: the padding length is written after it
+				log.Infof(ctx, tags[(g+n)%2], "<id:%s>%s|%d", id, strings.Repeat("#", pad+(g+n)%7), pad+(g+n)%7) // self-validating: the padding length is written after it
 				mu.Lock()
 				fmt.Fprintln(ack, id) // the call has returned: acknowledge it (unbuffered write on the pipe)
 				total++
